@@ -2,7 +2,7 @@ import Octo.Lemmas.GroupAgg
 import Octo.Lemmas.GroupResolve
 import Octo.Props.C01
 import Octo.Model.SqlGroupTrig
-import Octo.Lemmas.GroupTrig
+import Octo.Lemmas.GroupTrigSem
 import Octo.Props.C09
 /-!
 # C03 — GROUP BY and aggregates match relational semantics
@@ -168,6 +168,16 @@ theorem trigger_same_final_result (keys : List SExpr) (aggs : List PAgg) (t : Tr
     ∃ out, Trig.run Trig.wlessFixed (gbConf keys aggs t) (toMsgs rows) = some out ∧
       ∀ row, net (recs out) row = net (recs (Trig.simpleRun (gbConf keys aggs t) (toMsgs rows))) row :=
   custom_consolidates_to_simple keys aggs t rows hok
+
+/-- **`CustomTriggerGroupBy` = `groupSem`**: for every grouping block and every trigger that selects the node, on
+    every batch input on which the expressions evaluate: no panic, and the changelog the node emits — with all its
+    retractions — consolidates to exactly the rows of `groupSem` (for every row, its net multiplicity in the output
+    is its multiplicity in `groupSem`).  Together with `groupBy_sql`: both group-by nodes compute the same relation. -/
+theorem customTrigger_groupBy_sql (keys : List SExpr) (aggs : List PAgg) (t : Trig) (rows : List Row)
+    (hok : evalsOk keys aggs rows = true) (hf : FiniteArgs aggs rows) :
+    ∃ out, Trig.run Trig.wlessFixed (gbConf keys aggs t) (toMsgs rows) = some out ∧
+      ∀ row, net (recs out) row = (countRow row (groupSem keys aggs rows) : Int) :=
+  custom_trigger_groupSem keys aggs t rows hok hf
 
 /-- the grouping keys are found through `HashManyValues`: key tuples the node treats as one group
     (`Compare == 0` pointwise) hash equally, so the hash map cannot split a group (C09) -/
